@@ -29,6 +29,7 @@ def _analyse_classes(root, classes, budget_s=600):
             res['unmodelled'].append((cls, 'no scenario builder'))
             continue
         is_expr = sim.is_subclass(cls, 'Expr')
+        rel = {}
         for sc in scs:
             res['scenarios'] += 1
             sim.compilation.routines = dict(sc.routines)
@@ -56,9 +57,23 @@ def _analyse_classes(root, classes, budget_s=600):
                     _check_path(sim, res, g, cls, sc, debug, choices, out,
                                 is_expr)
             _flag_equivalence(sim, res, g, cls, sc, per_flag)
+            if cls == 'InputStmt':
+                rel.setdefault(sc.label.split(' prompt=')[0], []).append(
+                    (sc, sorted(repr(_mask_literals(o[1]))
+                                for c, o in per_flag[False]
+                                if o[0] == 'ok')))
             if time.time() - t0 > budget_s:
                 res['unmodelled'].append((cls, 'time budget exhausted'))
                 break
+        for key, group in sorted(rel.items()):
+            seqs = {tuple(x[1]) for x in group}
+            if len(seqs) > 1:
+                _problem(res, 'prompt-dependent-code', g, cls, group[0][0],
+                         'the instructions emitted for INPUT differ between '
+                         'two statements that differ only in the text of the '
+                         'prompt string (beyond the string literal itself): '
+                         'flags such as the question mark must come from the '
+                         'syntax (; or ,), not from the prompt text', None)
     return res
 
 
@@ -236,6 +251,8 @@ def _check_path(sim, res, g, cls, sc, debug, choices, out, is_expr):
                 _problem(res, 'net-effect', g, cls, sc,
                          f'{kind} leaves {stk}, expected {entry[:-1]}',
                          debug)
+    if cls == 'PrintStmt':
+        _print_items(sim, res, g, cls, sc, debug, instrs)
     # marker discipline
     mp, manual = G.marker_check(instrs)
     for p in mp:
@@ -264,6 +281,103 @@ def _check_path(sim, res, g, cls, sc, debug, choices, out, is_expr):
                      f'foreign one', debug)
 
 
+def _print_entries(instrs):
+    """The (tag, value?) entries a PRINT emission hands to the device, in
+    order; the counted-arguments push before the io instruction is not an
+    entry."""
+    real = [i for i in G.strip_pseudo(instrs)]
+    io = [k for k, i in enumerate(real) if i[0] == 'io']
+    if not io:
+        return None
+    body = real[:io[-1]]
+    if body and body[-1][0] == 'push%':
+        body = body[:-1]          # nargs
+    out = []
+    k = 0
+    while k < len(body):
+        i = body[k]
+        if i[0] == 'push%' and k + 1 < len(body) and \
+                body[k + 1][0] == '$gen':
+            out.append(('v', i[1], body[k + 1][1]))
+            k += 2
+        elif i[0] == 'push%':
+            out.append(('s', i[1], None))
+            k += 1
+        else:
+            k += 1                # conversions etc.
+    return out
+
+
+def _print_items(sim, res, g, cls, sc, debug, instrs):
+    """One entry per source item, in source order.  Semicolons print
+    nothing, so they may be elided; values and commas may not."""
+    ents = _print_entries(instrs)
+    if ents is None:
+        return
+    items = list(sc.node.fields.get('items') or [])
+    fmt = sc.node.fields.get('format_string')
+    want = []
+    for it in items:
+        if it.cls == 'PrintSep':
+            want.append(('s', it.fields.get('sep')))
+        else:
+            want.append(('v', it.uid))
+    got = []
+    for kind, tag, node in ents:
+        if kind == 'v':
+            if fmt is not None and node is fmt:
+                continue          # the USING format string
+            got.append(('v', getattr(node, 'uid', None)))
+        else:
+            got.append(('s', tag))
+    # map separator tags to separator texts by first occurrence
+    if [k for k, _ in want] == [k for k, _ in got]:
+        m = {}
+        for (k, w), (_, t) in zip(want, got):
+            if k == 's':
+                if m.setdefault(t, w) != w or \
+                        sum(1 for x in m.values() if x == w) > 1:
+                    _problem(res, 'print-items', g, cls, sc,
+                             f'separator tags are not in one-to-one '
+                             f'correspondence with the separators of the '
+                             f'statement ({want} -> {got})', debug)
+                    return
+            elif w != t:
+                _problem(res, 'print-items', g, cls, sc,
+                         f'values are emitted out of source order '
+                         f'({want} -> {got})', debug)
+                return
+        return
+    # lengths differ: tolerate elided semicolons only
+    semi = getattr(sim, '_semi_tag', None)
+    if semi is None:
+        sep = ANode(sim, 'PrintSep', sep=';')
+        outs = sim.run_generator('PrintStmt', ANode(
+            sim, 'PrintStmt', items=[sep], format_string=None),
+            debug=False, cfg={}, routine=None, blocks=None)
+        semi = 'unknown'
+        for ch, o in outs:
+            if o[0] == 'ok':
+                e = _print_entries(o[1])
+                if e and len(e) == 1 and e[0][0] == 's':
+                    semi = e[0][1]
+        sim._semi_tag = semi
+    w2 = [x for x in want if x != ('s', ';')]
+    g2 = [x for x in got if not (x[0] == 's' and x[1] == semi)]
+    if [k for k, _ in w2] != [k for k, _ in g2] or \
+            (bool(want) and bool(got) and
+             (want[-1][0] == 's') != (got[-1][0] == 's')) or \
+            (bool(want) != bool(got) and (want or got) and
+             not all(x == ('s', ';') for x in want)):
+        sw = ' '.join('e' if k == 'v' else str(x) for k, x in want)
+        sg = ' '.join('e' if k == 'v' else f'tag{x}' for k, x in got)
+        _problem(res, 'print-items', g, cls, sc,
+                 f'a value or a comma of the statement is dropped, added or '
+                 f'moved on the way to the device (only semicolons may be '
+                 f'elided); e.g. items [{sw}] are handed over as [{sg}]',
+                 debug)
+
+
 def _show(ins):
     out = []
     for x in ins:
@@ -284,6 +398,16 @@ def _flag_equivalence(sim, res, g, cls, sc, per_flag):
                  'the real instructions emitted with debug info differ from '
                  'those emitted without it '
                  f'(first difference: {_first_diff(a, b)})', None)
+
+
+def _mask_literals(instrs):
+    out = []
+    for ins in G.strip_pseudo(instrs):
+        if ins and ins[0] == 'push$':
+            out.append(('push$', '<literal>'))
+        else:
+            out.append(tuple(str(x) for x in ins))
+    return out
 
 
 def _canon_seq(instrs):
@@ -385,7 +509,8 @@ def _detail_head(detail, kind=None):
         return d.split(':')[0].strip()[:40]
     if kind in ('net-effect', 'marker-discipline', 'marker-attribution',
                 'marker-without-flag', 'flag-changes-code',
-                'inconsistent-stack', 'arg-type'):
+                'inconsistent-stack', 'arg-type', 'print-items',
+                'prompt-dependent-code'):
         return kind
     if kind == 'generator-raises':
         return d.split(':')[0].strip()[:40]
